@@ -155,6 +155,32 @@ impl CountMinSketch {
     }
 }
 
+#[cfg(transparencies_stretto_verif)]
+impl CountMinRow {
+    pub(crate) fn verif_bytes(&self) -> Vec<u8> {
+        self.0.clone()
+    }
+
+    pub(crate) fn verif_from_bytes(bytes: &[u8]) -> Self {
+        Self(bytes.to_vec())
+    }
+}
+
+#[cfg(transparencies_stretto_verif)]
+impl CountMinSketch {
+    pub(crate) fn verif_rows(&self) -> Vec<Vec<u8>> {
+        self.rows.iter().map(|r| r.0.clone()).collect()
+    }
+
+    pub(crate) fn verif_seeds(&self) -> [u64; DEPTH] {
+        self.seeds
+    }
+
+    pub(crate) fn verif_mask(&self) -> u64 {
+        self.mask
+    }
+}
+
 #[cfg(test)]
 mod test {
     use super::*;
